@@ -7,16 +7,19 @@ from typing import List, Tuple, Union, cast
 
 import libcst
 from libcst import (
+    Attribute,
     BaseCompoundStatement,
     BaseSmallStatement,
     BaseSuite,
     CSTTransformer,
     FlattenSentinel,
+    If,
     Import,
     ImportFrom,
     ImportStar,
     MaybeSentinel,
     Module,
+    Name,
     RemovalSentinel,
     RemoveFromParent,
     SimpleStatementLine,
@@ -55,9 +58,32 @@ class MoveImportsToTypeCheckingBlockVisitor(ContextAwareTransformer):
         return transformed_source_module
 
     def _remove_imports(self, tree: Module) -> Module:
+        # Only the module-level statements: the same import inside a function
+        # or an `if` block belongs to the source and stays
         transformer = RemoveImportsTransformer(self.import_items_to_be_moved)
-        transformed_source_module = tree.visit(transformer)
-        return transformed_source_module
+        body = []
+        for statement in tree.body:
+            if isinstance(statement, SimpleStatementLine):
+                updated = statement.visit(transformer)
+                if not isinstance(updated, SimpleStatementLine) or not updated.body:
+                    continue
+                statement = updated
+            body.append(statement)
+        return tree.with_changes(body=body)
+
+    @staticmethod
+    def _already_confined(tree: Module) -> List[ImportItem]:
+        """Imports the module already has under a module-level `if TYPE_CHECKING:`."""
+        gatherer = GatherImportsVisitor(CodemodContext())
+        for statement in tree.body:
+            if isinstance(statement, If) and (
+                isinstance(statement.test, Name)
+                and statement.test.value == "TYPE_CHECKING"
+                or isinstance(statement.test, Attribute)
+                and statement.test.attr.value == "TYPE_CHECKING"
+            ):
+                statement.body.visit(gatherer)
+        return list(gatherer.symbol_mapping.values())
 
     def _get_import_module(self) -> Module:
         empty_code = libcst.parse_module("")
@@ -163,7 +189,14 @@ class MoveImportsToTypeCheckingBlockVisitor(ContextAwareTransformer):
             # shifted inside the if TYPE_CHECKING block
             tree = self._remove_imports(tree)
 
-            # Add the new imports inside if TYPE_CHECKING block
+            # Add the new imports inside if TYPE_CHECKING block (those the
+            # module already has there need no second copy)
+            already_confined = self._already_confined(tree)
+            self.import_items_to_be_moved = [
+                item
+                for item in self.import_items_to_be_moved
+                if item not in already_confined
+            ]
             tree = self._add_if_type_checking_block(tree)
 
         return tree
